@@ -1,5 +1,1714 @@
-//! C09 - monitor not built yet.
+//! C09 - Encrypted store: tampering is detected, plaintext never reaches the backend.
+//!
+//! Three monitors over the real `EncryptedStore` (DESIGN.md C09):
+//!
+//! 1. **Single-site tamper enumeration.** Small objects (sizes 0,1,c-1,c,c+1,2c+3 for chunk sizes
+//!    c in {1,7,16}) are written through the store by put / multipart / copy / rename, two keys
+//!    and two generations per key. For each such backend state EVERY single-site tamper of the
+//!    inner store is applied to a fork of the state (every bit of every object, every truncation,
+//!    extensions, chunk / payload / metadata swaps, re-pointing, replay, field stripping and
+//!    field transplants on the re-encoded CBOR) and a cold store instance with the same key runs
+//!    all read paths. Oracle: a read fails or returns exactly what was written for that key.
+//! 2. **Plaintext scan.** Everything that crosses the backend boundary (recorded by a spy
+//!    store: put payloads, multipart parts, incl. aborted uploads and failed commits) and
+//!    everything that persists is scanned for 8-byte windows of any plaintext and for a marker.
+//! 3. **Nonce monitor.** The `verif` hook reports every (nonce, aad, plaintext) handed to the
+//!    cipher; the same nonce with a different input is a violation.
+
+use anda_object_store::{EncryptedStore, EncryptedStoreBuilder};
+use async_trait::async_trait;
+use bytes::Bytes;
+use cbor2::Value as Cbor;
+use futures::TryStreamExt;
+use futures::stream::BoxStream;
+use object_store::memory::InMemory;
+use object_store::path::Path;
+use object_store::{
+    CopyOptions, Error as OsError, GetOptions, GetRange, GetResult, ListResult, MultipartUpload,
+    ObjectMeta, ObjectStore, ObjectStoreExt, PutMultipartOptions, PutOptions, PutPayload, PutResult,
+    RenameOptions, UploadPart,
+};
+use std::collections::{BTreeMap, HashMap, HashSet};
+use std::ops::Range;
+use std::sync::atomic::{AtomicBool, AtomicU64, Ordering};
+use std::sync::{Arc, Mutex};
+use vcore::recstore::dump_store;
+use vcore::run::block_on;
+use vcore::{Rng, Run, Stats, json};
+
+const SECRET: [u8; 32] = [0xc9; 32];
+const MARKER: &[u8] = b"C09-PLAINTEXT-MARKER";
+
+// ---------------------------------------------------------------------------------------------
+// nonce monitor (process-global: the hook is a plain fn called from every worker thread)
+
+const SHARDS: usize = 64;
+const MAX_NONCE_ENTRIES: u64 = 6_000_000;
+
+struct NonceMon {
+    shards: Vec<Mutex<HashMap<[u8; 12], (u64, u64, &'static str)>>>,
+    events: AtomicU64,
+    distinct: AtomicU64,
+    identical_repeats: AtomicU64,
+    saturated: AtomicBool,
+    collisions: Mutex<Vec<String>>,
+    sites: Mutex<BTreeMap<&'static str, u64>>,
+}
+
+static NONCES: std::sync::OnceLock<NonceMon> = std::sync::OnceLock::new();
+
+fn nonce_mon() -> &'static NonceMon {
+    NONCES.get_or_init(|| NonceMon {
+        shards: (0..SHARDS).map(|_| Mutex::new(HashMap::new())).collect(),
+        events: AtomicU64::new(0),
+        distinct: AtomicU64::new(0),
+        identical_repeats: AtomicU64::new(0),
+        saturated: AtomicBool::new(false),
+        collisions: Mutex::new(vec![]),
+        sites: Mutex::new(BTreeMap::new()),
+    })
+}
+
+thread_local! {
+    static SITE_COUNTS: std::cell::RefCell<BTreeMap<&'static str, u64>> = const { std::cell::RefCell::new(BTreeMap::new()) };
+}
+
+fn fnv2(b: &[u8]) -> u64 {
+    // second, independent 64-bit digest (length-seeded) next to vcore::fnv
+    let mut h: u64 = 0x9e3779b97f4a7c15 ^ (b.len() as u64).wrapping_mul(0xff51afd7ed558ccd);
+    for x in b {
+        h = (h ^ *x as u64).wrapping_mul(0xc4ceb9fe1a85ec53).rotate_left(23);
+    }
+    h
+}
+
+fn nonce_hook(site: &'static str, nonce: &[u8; 12], aad: &[u8], plaintext: &[u8]) {
+    let m = nonce_mon();
+    m.events.fetch_add(1, Ordering::Relaxed);
+    SITE_COUNTS.with(|c| *c.borrow_mut().entry(site).or_insert(0) += 1);
+    let da = vcore::fnv(aad) ^ fnv2(aad).rotate_left(7);
+    let dp = vcore::fnv(plaintext) ^ fnv2(plaintext).rotate_left(7);
+    let shard = &m.shards[(nonce[0] as usize ^ nonce[5] as usize) % SHARDS];
+    let mut g = shard.lock().unwrap_or_else(|e| e.into_inner());
+    match g.get(nonce) {
+        Some((a, p, s0)) => {
+            if *a == da && *p == dp {
+                m.identical_repeats.fetch_add(1, Ordering::Relaxed);
+            } else {
+                let mut c = m.collisions.lock().unwrap_or_else(|e| e.into_inner());
+                if c.len() < 8 {
+                    let hex: String = nonce.iter().map(|x| format!("{x:02x}")).collect();
+                    c.push(format!(
+                        "nonce {hex} used at `{s0}` and again at `{site}` with a different (aad, plaintext): \
+                         aad {}B, plaintext {}B",
+                        aad.len(),
+                        plaintext.len()
+                    ));
+                }
+            }
+        }
+        None => {
+            if m.distinct.load(Ordering::Relaxed) < MAX_NONCE_ENTRIES {
+                g.insert(*nonce, (da, dp, site));
+                m.distinct.fetch_add(1, Ordering::Relaxed);
+            } else {
+                m.saturated.store(true, Ordering::Relaxed);
+            }
+        }
+    }
+}
+
+fn flush_site_counts() {
+    SITE_COUNTS.with(|c| {
+        let mut g = nonce_mon().sites.lock().unwrap_or_else(|e| e.into_inner());
+        for (k, v) in std::mem::take(&mut *c.borrow_mut()) {
+            *g.entry(k).or_insert(0) += v;
+        }
+    });
+}
+
+// ---------------------------------------------------------------------------------------------
+// spy store: records every payload that crosses the backend boundary
+
+#[derive(Default)]
+struct SpyLog {
+    payloads: Vec<(String, Bytes)>,
+    fail_next_meta_put: bool,
+}
+
+#[derive(Clone)]
+struct SpyStore {
+    inner: Arc<InMemory>,
+    log: Arc<Mutex<SpyLog>>,
+}
+
+impl SpyStore {
+    fn new() -> Self {
+        SpyStore { inner: Arc::new(InMemory::new()), log: Arc::new(Mutex::new(SpyLog::default())) }
+    }
+    fn record(&self, path: &str, p: &PutPayload) {
+        let mut v = Vec::with_capacity(p.content_length());
+        for seg in p.iter() {
+            v.extend_from_slice(seg);
+        }
+        self.log.lock().unwrap().payloads.push((path.to_string(), Bytes::from(v)));
+    }
+}
+
+impl std::fmt::Debug for SpyStore {
+    fn fmt(&self, f: &mut std::fmt::Formatter<'_>) -> std::fmt::Result {
+        write!(f, "SpyStore")
+    }
+}
+impl std::fmt::Display for SpyStore {
+    fn fmt(&self, f: &mut std::fmt::Formatter<'_>) -> std::fmt::Result {
+        write!(f, "SpyStore")
+    }
+}
+
+#[async_trait]
+impl ObjectStore for SpyStore {
+    async fn put_opts(&self, location: &Path, payload: PutPayload, opts: PutOptions) -> object_store::Result<PutResult> {
+        self.record(location.as_ref(), &payload);
+        if location.as_ref().starts_with("meta/") {
+            let mut g = self.log.lock().unwrap();
+            if g.fail_next_meta_put {
+                g.fail_next_meta_put = false;
+                return Err(OsError::Generic { store: "SpyStore", source: "injected commit failure".into() });
+            }
+        }
+        self.inner.put_opts(location, payload, opts).await
+    }
+    async fn put_multipart_opts(&self, location: &Path, opts: PutMultipartOptions) -> object_store::Result<Box<dyn MultipartUpload>> {
+        let up = self.inner.put_multipart_opts(location, opts).await?;
+        Ok(Box::new(SpyUpload { store: self.clone(), path: location.to_string(), inner: up }))
+    }
+    async fn get_opts(&self, location: &Path, options: GetOptions) -> object_store::Result<GetResult> {
+        self.inner.get_opts(location, options).await
+    }
+    async fn get_ranges(&self, location: &Path, ranges: &[Range<u64>]) -> object_store::Result<Vec<Bytes>> {
+        self.inner.get_ranges(location, ranges).await
+    }
+    fn delete_stream(&self, locations: BoxStream<'static, object_store::Result<Path>>) -> BoxStream<'static, object_store::Result<Path>> {
+        self.inner.delete_stream(locations)
+    }
+    fn list(&self, prefix: Option<&Path>) -> BoxStream<'static, object_store::Result<ObjectMeta>> {
+        self.inner.list(prefix)
+    }
+    fn list_with_offset(&self, prefix: Option<&Path>, offset: &Path) -> BoxStream<'static, object_store::Result<ObjectMeta>> {
+        self.inner.list_with_offset(prefix, offset)
+    }
+    async fn list_with_delimiter(&self, prefix: Option<&Path>) -> object_store::Result<ListResult> {
+        self.inner.list_with_delimiter(prefix).await
+    }
+    async fn copy_opts(&self, from: &Path, to: &Path, options: CopyOptions) -> object_store::Result<()> {
+        self.inner.copy_opts(from, to, options).await
+    }
+    async fn rename_opts(&self, from: &Path, to: &Path, options: RenameOptions) -> object_store::Result<()> {
+        self.inner.rename_opts(from, to, options).await
+    }
+}
+
+struct SpyUpload {
+    store: SpyStore,
+    path: String,
+    inner: Box<dyn MultipartUpload>,
+}
+
+impl std::fmt::Debug for SpyUpload {
+    fn fmt(&self, f: &mut std::fmt::Formatter<'_>) -> std::fmt::Result {
+        write!(f, "SpyUpload({})", self.path)
+    }
+}
+
+#[async_trait]
+impl MultipartUpload for SpyUpload {
+    fn put_part(&mut self, data: PutPayload) -> UploadPart {
+        self.store.record(&self.path, &data);
+        self.inner.put_part(data)
+    }
+    async fn complete(&mut self) -> object_store::Result<PutResult> {
+        self.inner.complete().await
+    }
+    async fn abort(&mut self) -> object_store::Result<()> {
+        self.inner.abort().await
+    }
+}
+
+// ---------------------------------------------------------------------------------------------
+// helpers
+
+type Store = EncryptedStore<Arc<dyn ObjectStore>>;
+
+fn build_store(inner: Arc<dyn ObjectStore>, chunk: u64, strict: bool) -> Store {
+    let mut b = EncryptedStoreBuilder::with_secret(inner, 64, SECRET).with_chunk_size(chunk);
+    if strict {
+        b = b.with_strict_metadata_auth();
+    }
+    b.build()
+}
+
+async fn do_multipart(os: &dyn ObjectStore, path: &Path, parts: &[Vec<u8>]) -> object_store::Result<()> {
+    let mut up = os.put_multipart(path).await?;
+    for p in parts {
+        up.put_part(PutPayload::from(p.clone())).await?;
+    }
+    up.complete().await?;
+    Ok(())
+}
+
+fn split_parts(rng: &mut Rng, data: &[u8], max_parts: usize) -> Vec<Vec<u8>> {
+    let mut parts = vec![];
+    let mut rest = data;
+    while !rest.is_empty() && parts.len() + 1 < max_parts {
+        let n = 1 + rng.usize(rest.len());
+        parts.push(rest[..n].to_vec());
+        rest = &rest[n..];
+    }
+    if !rest.is_empty() {
+        parts.push(rest.to_vec());
+    }
+    parts
+}
+
+fn hex(b: &[u8]) -> String {
+    b.iter().take(24).map(|x| format!("{x:02x}")).collect::<String>() + if b.len() > 24 { ".." } else { "" }
+}
+
+fn cbor_decode(doc: &[u8]) -> Option<Vec<(Cbor, Cbor)>> {
+    match cbor2::from_slice::<Cbor>(doc).ok()? {
+        Cbor::Map(m) => Some(m),
+        _ => None,
+    }
+}
+
+fn cbor_encode(map: &[(Cbor, Cbor)]) -> Vec<u8> {
+    let mut buf = vec![];
+    cbor2::to_writer(&Cbor::Map(map.to_vec()), &mut buf).expect("cbor encode");
+    buf
+}
+
+fn field<'a>(map: &'a [(Cbor, Cbor)], name: &str) -> Option<&'a Cbor> {
+    map.iter().find(|(k, _)| k.as_text() == Some(name)).map(|(_, v)| v)
+}
+
+fn without(map: &[(Cbor, Cbor)], names: &[&str]) -> Vec<(Cbor, Cbor)> {
+    map.iter().filter(|(k, _)| !names.contains(&k.as_text().unwrap_or(""))).cloned().collect()
+}
+
+fn with_value(map: &[(Cbor, Cbor)], name: &str, v: Cbor) -> Vec<(Cbor, Cbor)> {
+    map.iter().map(|(k, old)| if k.as_text() == Some(name) { (k.clone(), v.clone()) } else { (k.clone(), old.clone()) }).collect()
+}
+
+// ---------------------------------------------------------------------------------------------
+// monitor 1: object states
+
+#[derive(Clone, Copy, Debug, PartialEq)]
+enum Method {
+    Put,
+    Multipart,
+    Copy,
+    Rename,
+}
+
+const METHODS: [Method; 4] = [Method::Put, Method::Multipart, Method::Copy, Method::Rename];
+
+fn sizes_for(c: usize) -> [usize; 6] {
+    [0, 1, c.saturating_sub(1), c, c + 1, 2 * c + 3]
+}
+
+#[derive(Clone)]
+struct KeyState {
+    key: String,
+    /// what a read of this key must return
+    orig: Vec<u8>,
+    etag: Option<String>,
+    /// the previous committed version of the key (its payload is still on the backend)
+    old: Vec<u8>,
+    old_etag: Option<String>,
+    meta_path: String,
+    meta_new: Vec<u8>,
+    meta_old: Vec<u8>,
+    pay_new_path: String,
+    pay_new: Vec<u8>,
+    pay_old_path: String,
+    pay_old: Vec<u8>,
+    method: Method,
+}
+
+struct State {
+    base: InMemory,
+    chunk: u64,
+    keys: Vec<KeyState>,
+    /// thorough tier: every byte value at every metadata position of key 0
+    deep: bool,
+}
+
+fn plaintext(rng: &mut Rng, n: usize) -> Vec<u8> {
+    rng.bytes(n)
+}
+
+async fn raw(inner: &InMemory, path: &str) -> Option<Vec<u8>> {
+    match inner.get(&Path::from(path)).await {
+        Ok(r) => r.bytes().await.ok().map(|b| b.to_vec()),
+        Err(_) => None,
+    }
+}
+
+fn pointer_of(key: &str, doc: &[u8]) -> Option<String> {
+    let m = cbor_decode(doc)?;
+    match field(&m, "g") {
+        Some(Cbor::Text(g)) => Some(format!("gen/{key}/{g}")),
+        _ => Some(format!("data/{key}")),
+    }
+}
+
+/// Writes `old` then `new` (through `method`) under `key` and puts the replaced generation's
+/// payload back where it was (an unreclaimed generation, as after a crash before the reclaim).
+async fn write_key(
+    store: &Store,
+    inner: &InMemory,
+    key: &str,
+    old: &[u8],
+    new: &[u8],
+    method: Method,
+    rng: &mut Rng,
+) -> Result<KeyState, String> {
+    let p = Path::from(key);
+    let e = |e: OsError| format!("{e}");
+    store.put(&p, PutPayload::from(old.to_vec())).await.map_err(e)?;
+    let meta_path = format!("meta/{key}");
+    let meta_old = raw(inner, &meta_path).await.ok_or("no metadata after first put")?;
+    let pay_old_path = pointer_of(key, &meta_old).ok_or("undecodable metadata")?;
+    let pay_old = raw(inner, &pay_old_path).await.ok_or("no payload after first put")?;
+    let old_etag = store.head(&p).await.map_err(e)?.e_tag;
+    match method {
+        Method::Put => {
+            store.put(&p, PutPayload::from(new.to_vec())).await.map_err(e)?;
+        }
+        Method::Multipart => {
+            let parts = split_parts(rng, new, 4);
+            do_multipart(store, &p, &parts).await.map_err(e)?;
+        }
+        Method::Copy => {
+            let tmp = Path::from(format!("tmp/{key}"));
+            store.put(&tmp, PutPayload::from(new.to_vec())).await.map_err(e)?;
+            store.copy(&tmp, &p).await.map_err(e)?;
+            store.delete(&tmp).await.map_err(e)?;
+        }
+        Method::Rename => {
+            let tmp = Path::from(format!("tmp/{key}"));
+            store.put(&tmp, PutPayload::from(new.to_vec())).await.map_err(e)?;
+            store.rename(&tmp, &p).await.map_err(e)?;
+        }
+    }
+    let meta_new = raw(inner, &meta_path).await.ok_or("no metadata after second write")?;
+    let pay_new_path = pointer_of(key, &meta_new).ok_or("undecodable metadata")?;
+    let pay_new = raw(inner, &pay_new_path).await.ok_or("no payload after second write")?;
+    if pay_new_path == pay_old_path {
+        return Err("second write did not mint a new generation".into());
+    }
+    inner
+        .put(&Path::from(pay_old_path.as_str()), PutPayload::from(pay_old.clone()))
+        .await
+        .map_err(e)?;
+    let etag = store.head(&p).await.map_err(e)?.e_tag;
+    Ok(KeyState {
+        key: key.to_string(),
+        orig: new.to_vec(),
+        etag,
+        old: old.to_vec(),
+        old_etag,
+        meta_path,
+        meta_new,
+        meta_old,
+        pay_new_path,
+        pay_new,
+        pay_old_path,
+        pay_old,
+        method,
+    })
+}
+
+// ---------------------------------------------------------------------------------------------
+// tampers
+
+#[derive(Clone, Copy, Debug, PartialEq)]
+enum Expect {
+    /// fail or original
+    Normal,
+    /// whole-key rollback to a previously committed state: not decidable by the store; a read
+    /// fails, returns the current or (in full) the previous version
+    Rollback,
+    /// documented: authentication must reject the document on every read path
+    MustReject,
+    /// outside the single-site quantifier and inside the documented compatibility-mode downgrade
+    /// window (a document without any authentication-era field is indistinguishable from genuine
+    /// legacy metadata): outcomes are counted, not asserted
+    Undecidable,
+}
+
+/// How the store's documented rules see an unauthenticated installed document.
+#[derive(Clone, Copy, Debug, PartialEq)]
+enum Downgrade {
+    /// not a downgrade tamper (or the document does not decode)
+    No,
+    /// seal missing but `av` or `g` still present: "always rejected"
+    KeepsV1,
+    /// no an/at/av/g at all: looks like genuine legacy metadata (accepted in compatibility mode by
+    /// design, "rejected outright" in strict mode)
+    LegacyLooking,
+}
+
+fn downgrade_view(doc: &[u8]) -> Downgrade {
+    let Some(m) = cbor_decode(doc) else { return Downgrade::No };
+    let has = |f: &str| field(&m, f).map(|v| !matches!(v, Cbor::Null)).unwrap_or(false);
+    if has("an") || has("at") {
+        Downgrade::No
+    } else if has("av") || has("g") {
+        Downgrade::KeepsV1
+    } else {
+        Downgrade::LegacyLooking
+    }
+}
+
+struct Tamper {
+    class: &'static str,
+    what: String,
+    /// (path, Some(new bytes) | None = delete)
+    edits: Vec<(String, Option<Vec<u8>>)>,
+    /// which keys get the full read battery
+    full: [bool; 2],
+    expect: [Expect; 2],
+    /// (key index, view, more than one site changed) for tampers that remove the seal
+    downgrade: Option<(usize, Downgrade, bool)>,
+}
+
+fn t1(class: &'static str, what: String, path: &str, bytes: Vec<u8>, k: usize) -> Tamper {
+    let mut full = [false; 2];
+    full[k] = true;
+    Tamper { class, what, edits: vec![(path.to_string(), Some(bytes))], full, expect: [Expect::Normal; 2], downgrade: None }
+}
+
+fn chunk_ranges(len: usize, c: usize) -> Vec<Range<usize>> {
+    (0..len.div_ceil(c)).map(|i| i * c..((i + 1) * c).min(len)).collect()
+}
+
+fn enumerate_tampers(s: &State, rng: &mut Rng, out: &mut Vec<Tamper>) {
+    let c = s.chunk as usize;
+    for (k, ks) in s.keys.iter().enumerate() {
+        let other = &s.keys[1 - k];
+        let objects: [(&'static str, &str, &Vec<u8>); 4] = [
+            ("payload", &ks.pay_new_path, &ks.pay_new),
+            ("metadata", &ks.meta_path, &ks.meta_new),
+            ("old_payload", &ks.pay_old_path, &ks.pay_old),
+            ("", "", &ks.pay_old), // placeholder, skipped
+        ];
+        for (oname, path, bytes) in objects.iter().take(3) {
+            // every bit of every byte
+            for pos in 0..bytes.len() {
+                for bit in 0..8 {
+                    let mut b = (*bytes).clone();
+                    b[pos] ^= 1 << bit;
+                    let class = match *oname {
+                        "payload" => "bitflip_payload",
+                        "metadata" => "bitflip_metadata",
+                        _ => "bitflip_unreferenced_generation",
+                    };
+                    out.push(t1(class, format!("{path} byte {pos} bit {bit}"), path, b, k));
+                }
+            }
+            // every truncation length
+            for len in 0..bytes.len() {
+                let class = match *oname {
+                    "payload" => "truncate_payload",
+                    "metadata" => "truncate_metadata",
+                    _ => "truncate_unreferenced_generation",
+                };
+                out.push(t1(class, format!("{path} truncated to {len}/{}", bytes.len()), path, bytes[..len].to_vec(), k));
+            }
+            // extension by 1..=c bytes (random and zero filler)
+            for ext in 1..=c {
+                for zero in [false, true] {
+                    let mut b = (*bytes).clone();
+                    if zero {
+                        b.extend(std::iter::repeat_n(0u8, ext));
+                    } else {
+                        b.extend(rng.bytes(ext));
+                    }
+                    let class = match *oname {
+                        "payload" => "extend_payload",
+                        "metadata" => "extend_metadata",
+                        _ => "extend_unreferenced_generation",
+                    };
+                    out.push(t1(class, format!("{path} extended by {ext}"), path, b, k));
+                }
+            }
+        }
+        // whole-byte substitutions in the metadata document: the map header with every value
+        // (it decides how many fields the decoder sees), every position in the thorough tier
+        let positions = if s.deep && k == 0 { ks.meta_new.len() } else { 1 };
+        for pos in 0..positions.min(ks.meta_new.len()) {
+            for v in 0..=255u8 {
+                if v != ks.meta_new[pos] && (v ^ ks.meta_new[pos]).count_ones() > 1 {
+                    let mut b = ks.meta_new.clone();
+                    b[pos] = v;
+                    let view = downgrade_view(&b);
+                    let mut t = t1("substitute_byte_metadata", format!("{} byte {pos} := {v:#04x}", ks.meta_path), &ks.meta_path, b, k);
+                    t.downgrade = Some((k, view, false));
+                    out.push(t);
+                }
+            }
+        }
+        // payload object removed
+        out.push(Tamper {
+            class: "delete_payload",
+            what: format!("{} deleted", ks.pay_new_path),
+            edits: vec![(ks.pay_new_path.clone(), None)],
+            full: [k == 0, k == 1],
+            expect: [Expect::Normal; 2],
+            downgrade: None,
+        });
+        // chunk i <-> chunk j inside the payload
+        let chunks = chunk_ranges(ks.pay_new.len(), c);
+        for i in 0..chunks.len() {
+            for j in i + 1..chunks.len() {
+                let mut order: Vec<usize> = (0..chunks.len()).collect();
+                order.swap(i, j);
+                let b: Vec<u8> = order.iter().flat_map(|x| ks.pay_new[chunks[*x].clone()].to_vec()).collect();
+                out.push(t1("swap_chunks", format!("{} chunk {i} <-> chunk {j}", ks.pay_new_path), &ks.pay_new_path, b, k));
+            }
+            // chunk i overwritten with chunk j (duplication)
+            for j in 0..chunks.len() {
+                if i != j && chunks[i].len() == chunks[j].len() {
+                    let mut b = ks.pay_new.clone();
+                    let src = ks.pay_new[chunks[j].clone()].to_vec();
+                    b[chunks[i].clone()].copy_from_slice(&src);
+                    out.push(t1("duplicate_chunk", format!("{} chunk {i} := chunk {j}", ks.pay_new_path), &ks.pay_new_path, b, k));
+                }
+            }
+        }
+        // current payload replaced by the key's other generation / the other key's payloads
+        out.push(t1("payload_from_other_generation", format!("{} := {}", ks.pay_new_path, ks.pay_old_path), &ks.pay_new_path, ks.pay_old.clone(), k));
+        out.push(t1("payload_from_other_key", format!("{} := {}", ks.pay_new_path, other.pay_new_path), &ks.pay_new_path, other.pay_new.clone(), k));
+        out.push(t1("payload_from_other_key", format!("{} := {}", ks.pay_new_path, other.pay_old_path), &ks.pay_new_path, other.pay_old.clone(), k));
+        // metadata of the other key (either generation) installed for this key
+        for (which, doc) in [("current", &other.meta_new), ("previous", &other.meta_old)] {
+            let mut t = t1("metadata_from_other_key", format!("{} := {which} document of {}", ks.meta_path, other.key), &ks.meta_path, doc.clone(), k);
+            t.expect[k] = Expect::MustReject;
+            out.push(t);
+        }
+        // old metadata document replayed over the new one while its payload still exists:
+        // a whole-key rollback to a previously valid committed state
+        let mut t = t1("replay_old_metadata_with_old_payload", format!("{} := its previous document", ks.meta_path), &ks.meta_path, ks.meta_old.clone(), k);
+        t.expect[k] = Expect::Rollback;
+        out.push(t);
+        // ... and replayed after the old payload was reclaimed (the normal case)
+        let mut t = Tamper {
+            class: "replay_old_metadata_payload_reclaimed",
+            what: format!("{} := its previous document, {} absent", ks.meta_path, ks.pay_old_path),
+            edits: vec![(ks.meta_path.clone(), Some(ks.meta_old.clone())), (ks.pay_old_path.clone(), None)],
+            full: [k == 0, k == 1],
+            expect: [Expect::Normal; 2],
+            downgrade: None,
+        };
+        // the listings consult the (validly sealed, previously committed) document alone: for
+        // them this is a rollback of everything they look at
+        t.expect[k] = Expect::Rollback;
+        out.push(t);
+        // ... and replayed with the NEW payload moved under the old pointer
+        let mut t = Tamper {
+            class: "replay_old_metadata_over_new_payload",
+            what: format!("{} := its previous document, {} := current payload", ks.meta_path, ks.pay_old_path),
+            edits: vec![(ks.meta_path.clone(), Some(ks.meta_old.clone())), (ks.pay_old_path.clone(), Some(ks.pay_new.clone()))],
+            full: [k == 0, k == 1],
+            expect: [Expect::Normal; 2],
+            downgrade: None,
+        };
+        // the listings consult the (validly sealed, previously committed) document alone: for
+        // them this is a rollback of everything they look at
+        t.expect[k] = Expect::Rollback;
+        out.push(t);
+
+        // --- CBOR-level tampers on the re-encoded document
+        let Some(map) = cbor_decode(&ks.meta_new) else { continue };
+        let old_map = cbor_decode(&ks.meta_old).unwrap_or_default();
+        let other_map = cbor_decode(&other.meta_new).unwrap_or_default();
+        // control: identity re-encoding must stay readable
+        out.push(t1("control_reencode_identity", format!("{} re-encoded", ks.meta_path), &ks.meta_path, cbor_encode(&map), k));
+        // re-pointed to the key's other generation / the other key's generation / a forged one,
+        // everything else (incl. the seal) untouched
+        let mut targets: Vec<(String, Cbor)> = vec![];
+        if let Some(g) = field(&old_map, "g") {
+            targets.push(("the key's other generation".into(), g.clone()));
+        }
+        if let Some(g) = field(&other_map, "g") {
+            targets.push(("the other key's generation id".into(), g.clone()));
+        }
+        targets.push(("a forged generation id".into(), Cbor::from("0000000000000001-deadbeef")));
+        for (what, g) in targets {
+            let mut t = t1("repoint_generation", format!("{} g := {what}", ks.meta_path), &ks.meta_path, cbor_encode(&with_value(&map, "g", g)), k);
+            t.expect[k] = Expect::MustReject;
+            out.push(t);
+        }
+        // re-pointed to the other generation AND that payload replaced by the current one
+        if let Some(g) = field(&old_map, "g") {
+            let mut t = Tamper {
+                class: "repoint_generation",
+                what: format!("{} g := the key's other generation, holding the current payload", ks.meta_path),
+                edits: vec![
+                    (ks.meta_path.clone(), Some(cbor_encode(&with_value(&map, "g", g.clone())))),
+                    (ks.pay_old_path.clone(), Some(ks.pay_new.clone())),
+                ],
+                full: [k == 0, k == 1],
+                expect: [Expect::Normal; 2],
+            downgrade: None,
+            };
+            t.expect[k] = Expect::MustReject;
+            out.push(t);
+        }
+        // field stripping: every field alone (removed / null), and the downgrade combinations
+        let names: Vec<String> = map.iter().filter_map(|(k, _)| k.as_text().map(String::from)).collect();
+        for n in &names {
+            for (how, doc) in [
+                ("removed", cbor_encode(&without(&map, &[n.as_str()]))),
+                (":= null", cbor_encode(&with_value(&map, n, Cbor::Null))),
+            ] {
+                let view = downgrade_view(&doc);
+                let mut t = t1("strip_field", format!("{} field `{n}` {how}", ks.meta_path), &ks.meta_path, doc, k);
+                t.downgrade = Some((k, view, false));
+                out.push(t);
+            }
+        }
+        let combos: [&[&str]; 7] = [
+            &["an", "at"],
+            &["an", "at", "av"],
+            &["an", "at", "g"],
+            &["an", "at", "m"],
+            &["an", "at", "av", "g"],
+            &["an", "at", "av", "g", "m"],
+            &["an", "at", "av", "g", "m", "c"],
+        ];
+        for combo in combos {
+            let stripped = cbor_encode(&without(&map, combo));
+            let view = downgrade_view(&stripped);
+            let class = if view == Downgrade::KeepsV1 { "strip_auth_keeping_v1_fields" } else { "strip_auth_full_downgrade" };
+            let mut t = t1(class, format!("{} fields {combo:?} removed", ks.meta_path), &ks.meta_path, stripped.clone(), k);
+            t.downgrade = Some((k, view, false));
+            out.push(t);
+            // full downgrade plus the ciphertext offered at the legacy location (two objects)
+            if view == Downgrade::LegacyLooking {
+                out.push(Tamper {
+                    class: "strip_auth_full_downgrade_with_legacy_payload",
+                    what: format!("{} fields {combo:?} removed, data/{} := current payload", ks.meta_path, ks.key),
+                    edits: vec![(ks.meta_path.clone(), Some(stripped)), (format!("data/{}", ks.key), Some(ks.pay_new.clone()))],
+                    full: [k == 0, k == 1],
+                    expect: [Expect::Normal; 2],
+                    downgrade: Some((k, view, false)),
+                });
+            }
+        }
+        // the downgrade as an attack (two sites, outside the single-site quantifier): seal removed,
+        // then one more bit of the document changed. Key 0 carries every (chunk size, size class,
+        // method) combination, so this class is enumerated for key 0 only.
+        if k == 0 {
+            let stripped = cbor_encode(&without(&map, &["an", "at"]));
+            for pos in 0..stripped.len() {
+                for bit in 0..8 {
+                    let mut b = stripped.clone();
+                    b[pos] ^= 1 << bit;
+                    let view = downgrade_view(&b);
+                    let mut t = t1("strip_seal_then_bitflip", format!("{} seal removed, byte {pos} bit {bit}", ks.meta_path), &ks.meta_path, b, k);
+                    t.downgrade = Some((k, view, true));
+                    out.push(t);
+                }
+            }
+        }
+        // single-field transplants from the key's previous document and the other key's document
+        for n in &names {
+            for (src_name, src) in [("previous document", &old_map), ("other key's document", &other_map)] {
+                if let Some(v) = field(src, n) {
+                    if Some(v) != field(&map, n) {
+                        out.push(t1("transplant_field", format!("{} field `{n}` := value from {src_name}", ks.meta_path), &ks.meta_path, cbor_encode(&with_value(&map, n, v.clone())), k));
+                    }
+                }
+            }
+        }
+        // size edits and tag-vector edits
+        let n = ks.orig.len() as u64;
+        for s2 in [0, n.saturating_sub(1), n + 1, n + s.chunk, u64::MAX] {
+            if s2 != n {
+                out.push(t1("edit_size_field", format!("{} s := {s2}", ks.meta_path), &ks.meta_path, cbor_encode(&with_value(&map, "s", Cbor::from(s2))), k));
+            }
+        }
+        if let Some(Cbor::Array(tags)) = field(&map, "t") {
+            let mut variants: Vec<(String, Vec<Cbor>)> = vec![];
+            if !tags.is_empty() {
+                variants.push(("last tag dropped".into(), tags[..tags.len() - 1].to_vec()));
+                let mut d = tags.clone();
+                d.push(tags[0].clone());
+                variants.push(("first tag appended".into(), d));
+            }
+            for i in 0..tags.len() {
+                for j in i + 1..tags.len() {
+                    let mut d = tags.clone();
+                    d.swap(i, j);
+                    variants.push((format!("tags {i} <-> {j}"), d));
+                }
+            }
+            for (what, v) in variants {
+                out.push(t1("edit_tag_vector", format!("{} {what}", ks.meta_path), &ks.meta_path, cbor_encode(&with_value(&map, "t", Cbor::Array(v))), k));
+            }
+        }
+        for c2 in [1u64, s.chunk + 1, s.chunk.saturating_sub(1).max(1), 0] {
+            if c2 != s.chunk {
+                out.push(t1("edit_chunk_size_field", format!("{} c := {c2}", ks.meta_path), &ks.meta_path, cbor_encode(&with_value(&map, "c", Cbor::from(c2))), k));
+            }
+        }
+        for av in [0u64, 2] {
+            out.push(t1("edit_aad_version_field", format!("{} av := {av}", ks.meta_path), &ks.meta_path, cbor_encode(&with_value(&map, "av", Cbor::from(av))), k));
+        }
+    }
+    // pairwise swaps between the two keys
+    let (a, b) = (&s.keys[0], &s.keys[1]);
+    out.push(Tamper {
+        class: "swap_payloads_between_keys",
+        what: format!("{} <-> {}", a.pay_new_path, b.pay_new_path),
+        edits: vec![(a.pay_new_path.clone(), Some(b.pay_new.clone())), (b.pay_new_path.clone(), Some(a.pay_new.clone()))],
+        full: [true, true],
+        expect: [Expect::Normal; 2],
+            downgrade: None,
+    });
+    out.push(Tamper {
+        class: "swap_metadata_between_keys",
+        what: format!("{} <-> {}", a.meta_path, b.meta_path),
+        edits: vec![(a.meta_path.clone(), Some(b.meta_new.clone())), (b.meta_path.clone(), Some(a.meta_new.clone()))],
+        full: [true, true],
+        expect: [Expect::MustReject; 2],
+        downgrade: None,
+    });
+    out.push(Tamper {
+        class: "swap_whole_objects_between_keys",
+        what: format!("metadata and payloads of {} and {} exchanged", a.key, b.key),
+        edits: vec![
+            (a.meta_path.clone(), Some(b.meta_new.clone())),
+            (b.meta_path.clone(), Some(a.meta_new.clone())),
+            (a.pay_new_path.clone(), Some(b.pay_new.clone())),
+            (b.pay_new_path.clone(), Some(a.pay_new.clone())),
+        ],
+        full: [true, true],
+        expect: [Expect::MustReject; 2],
+        downgrade: None,
+    });
+    // each key's generations exchanged (payload objects only)
+    for (k, ks) in s.keys.iter().enumerate() {
+        out.push(Tamper {
+            class: "swap_generations_of_key",
+            what: format!("{} <-> {}", ks.pay_new_path, ks.pay_old_path),
+            edits: vec![(ks.pay_new_path.clone(), Some(ks.pay_old.clone())), (ks.pay_old_path.clone(), Some(ks.pay_new.clone()))],
+            full: [k == 0, k == 1],
+            expect: [Expect::Normal; 2],
+            downgrade: None,
+        });
+    }
+}
+
+// ---------------------------------------------------------------------------------------------
+// read battery
+
+#[derive(Debug, PartialEq, Clone)]
+enum Outcome {
+    Failed,
+    Original,
+    /// the previous committed version, in full and self-consistent
+    Previous,
+    Wrong(String),
+}
+
+fn judge_bytes(ks: &KeyState, range: Option<Range<usize>>, got: &[u8], meta: Option<(u64, &Option<String>)>, rollback_ok: bool) -> Outcome {
+    let slice = |full: &[u8]| -> Option<Vec<u8>> {
+        match &range {
+            None => Some(full.to_vec()),
+            Some(r) => full.get(r.clone()).map(|x| x.to_vec()),
+        }
+    };
+    let meta_is = |len: usize, tag: &Option<String>| meta.map(|(s, t)| s == len as u64 && t == tag).unwrap_or(true);
+    if slice(&ks.orig).as_deref() == Some(got) && meta_is(ks.orig.len(), &ks.etag) {
+        return Outcome::Original;
+    }
+    if rollback_ok && slice(&ks.old).as_deref() == Some(got) && meta_is(ks.old.len(), &ks.old_etag) {
+        return Outcome::Previous;
+    }
+    Outcome::Wrong(format!(
+        "returned {}B {} (reported size/etag {:?}); written {}B {}",
+        got.len(),
+        hex(got),
+        meta.map(|(s, t)| (s, t.clone())),
+        ks.orig.len(),
+        hex(&ks.orig)
+    ))
+}
+
+fn judge_meta(ks: &KeyState, size: u64, tag: &Option<String>, rollback_ok: bool) -> Outcome {
+    if size == ks.orig.len() as u64 && tag == &ks.etag {
+        Outcome::Original
+    } else if rollback_ok && size == ks.old.len() as u64 && tag == &ks.old_etag {
+        Outcome::Previous
+    } else {
+        Outcome::Wrong(format!("reported size {size} etag {tag:?}; written size {} etag {:?}", ks.orig.len(), ks.etag))
+    }
+}
+
+fn battery_ranges(n: usize, c: usize) -> (Vec<Range<usize>>, Vec<usize>, Vec<usize>) {
+    let last = if n == 0 { 0 } else { (n - 1) / c * c };
+    let cand = [
+        (0, 1),
+        (0, c),
+        (c.saturating_sub(1), c + 1),
+        (n.saturating_sub(1), n),
+        (last, n),
+        (last.saturating_sub(1), n),
+        (1, n),
+        (0, n.saturating_sub(1)),
+        (c, 2 * c + 1),
+        (last + 1, n),
+        (0, n),
+    ];
+    let mut bounded: Vec<Range<usize>> = vec![];
+    for (a, b) in cand {
+        if a < b && b <= n && !bounded.contains(&(a..b)) {
+            bounded.push(a..b);
+        }
+    }
+    let mut offsets: Vec<usize> = vec![];
+    for o in [0, c, last, n.saturating_sub(1)] {
+        if o < n && !offsets.contains(&o) {
+            offsets.push(o);
+        }
+    }
+    let mut suffixes: Vec<usize> = vec![];
+    for x in [1, c + 1, n - last.min(n), n] {
+        if x >= 1 && x <= n && !suffixes.contains(&x) {
+            suffixes.push(x);
+        }
+    }
+    (bounded, offsets, suffixes)
+}
+
+struct Probe<'a> {
+    st: &'a mut Stats,
+    class: &'static str,
+    outcomes: Vec<(&'static str, Outcome)>,
+}
+
+impl Probe<'_> {
+    fn push(&mut self, path: &'static str, o: Outcome) {
+        self.st.count(&format!("reads:{path}"));
+        self.st.eval();
+        self.outcomes.push((path, o));
+    }
+}
+
+async fn get_outcome(store: &Store, ks: &KeyState, opts: GetOptions, expect_range: Option<Range<usize>>, rollback_ok: bool) -> Outcome {
+    match store.get_opts(&Path::from(ks.key.as_str()), opts).await {
+        Err(_) => Outcome::Failed,
+        Ok(res) => {
+            let size = res.meta.size;
+            let tag = res.meta.e_tag.clone();
+            let rr = res.range.clone();
+            match res.bytes().await {
+                Err(_) => Outcome::Failed,
+                Ok(b) => {
+                    let o = judge_bytes(ks, expect_range.clone(), &b, Some((size, &tag)), rollback_ok);
+                    if o == Outcome::Original {
+                        if let Some(r) = &expect_range {
+                            if rr != (r.start as u64..r.end as u64) {
+                                return Outcome::Wrong(format!("reported range {rr:?} for requested {r:?}"));
+                            }
+                        }
+                    }
+                    o
+                }
+            }
+        }
+    }
+}
+
+/// All read paths for one key on one (cold) instance; `rot` rotates which path goes first.
+async fn read_battery(store: &Store, ks: &KeyState, chunk: usize, full: bool, expect: Expect, rot: usize, p: &mut Probe<'_>) {
+    let rb = expect == Expect::Rollback;
+    let n = ks.orig.len();
+    let path = Path::from(ks.key.as_str());
+    let groups: usize = if full && !rb { 6 } else { 2 };
+    for gi in 0..groups {
+        match (gi + rot) % groups {
+            0 => {
+                let o = get_outcome(store, ks, GetOptions::default(), None, rb).await;
+                p.push("get", o);
+            }
+            1 => {
+                let o = match store.head(&path).await {
+                    Err(_) => Outcome::Failed,
+                    Ok(m) => judge_meta(ks, m.size, &m.e_tag, rb),
+                };
+                p.push("head", o);
+            }
+            2 => {
+                let (bounded, _, _) = battery_ranges(n, chunk);
+                for r in bounded {
+                    let opts = GetOptions { range: Some(GetRange::Bounded(r.start as u64..r.end as u64)), ..Default::default() };
+                    let o = get_outcome(store, ks, opts, Some(r), false).await;
+                    p.push("get_range_bounded", o);
+                }
+            }
+            3 => {
+                let (_, offsets, _) = battery_ranges(n, chunk);
+                for o in offsets {
+                    let opts = GetOptions { range: Some(GetRange::Offset(o as u64)), ..Default::default() };
+                    let out = get_outcome(store, ks, opts, Some(o..n), false).await;
+                    p.push("get_range_offset", out);
+                }
+            }
+            4 => {
+                let (_, _, suffixes) = battery_ranges(n, chunk);
+                for s in suffixes {
+                    let opts = GetOptions { range: Some(GetRange::Suffix(s as u64)), ..Default::default() };
+                    let out = get_outcome(store, ks, opts, Some(n - s..n), false).await;
+                    p.push("get_range_suffix", out);
+                }
+            }
+            _ => {
+                let (bounded, _, _) = battery_ranges(n, chunk);
+                if !bounded.is_empty() {
+                    // several ranges in one call, out of order and repeated
+                    let mut rs: Vec<Range<usize>> = bounded.iter().rev().take(4).cloned().collect();
+                    rs.push(bounded[0].clone());
+                    let req: Vec<Range<u64>> = rs.iter().map(|r| r.start as u64..r.end as u64).collect();
+                    let o = match store.get_ranges(&path, &req).await {
+                        Err(_) => Outcome::Failed,
+                        Ok(v) => {
+                            if v.len() != rs.len() {
+                                Outcome::Wrong(format!("{} results for {} ranges", v.len(), rs.len()))
+                            } else {
+                                let mut o = Outcome::Original;
+                                for (r, b) in rs.iter().zip(&v) {
+                                    if let Outcome::Wrong(w) = judge_bytes(ks, Some(r.clone()), b, None, false) {
+                                        o = Outcome::Wrong(format!("range {r:?}: {w}"));
+                                    }
+                                }
+                                o
+                            }
+                        }
+                    };
+                    p.push("get_ranges", o);
+                }
+            }
+        }
+    }
+}
+
+async fn listing_outcomes(store: &Store, keys: &[KeyState], expect: [Expect; 2], p: &mut Probe<'_>) {
+    let find = |l: &[ObjectMeta], ks: &KeyState, rb: bool| -> Outcome {
+        match l.iter().find(|m| m.location.as_ref() == ks.key) {
+            None => Outcome::Failed, // skipped by the listing
+            Some(m) => judge_meta(ks, m.size, &m.e_tag, rb),
+        }
+    };
+    let l1: object_store::Result<Vec<ObjectMeta>> = store.list(None).try_collect().await;
+    let l2: object_store::Result<Vec<ObjectMeta>> = store.list_with_offset(None, &Path::from("0")).try_collect().await;
+    // both keys live under the common prefix "k"
+    let l3 = store.list_with_delimiter(Some(&Path::from("k"))).await.map(|r| r.objects);
+    for (name, l) in [("list", l1), ("list_with_offset", l2), ("list_with_delimiter", l3)] {
+        for (k, ks) in keys.iter().enumerate() {
+            let o = match &l {
+                Err(_) => Outcome::Failed,
+                Ok(l) => find(l, ks, expect[k] == Expect::Rollback),
+            };
+            p.push(name, o);
+            // tag the outcome with the key it belongs to
+            let last = p.outcomes.len() - 1;
+            p.outcomes[last].0 = match (name, k) {
+                ("list", 0) => "list#0",
+                ("list", _) => "list#1",
+                ("list_with_offset", 0) => "list_with_offset#0",
+                ("list_with_offset", _) => "list_with_offset#1",
+                (_, 0) => "list_with_delimiter#0",
+                _ => "list_with_delimiter#1",
+            };
+        }
+    }
+}
+
+async fn copy_then_read(store: &Store, ks: &KeyState, k: usize, rb: bool, p: &mut Probe<'_>) {
+    let to = Path::from(format!("copies/{k}"));
+    let o = match store.copy(&Path::from(ks.key.as_str()), &to).await {
+        Err(_) => Outcome::Failed,
+        Ok(()) => match store.get(&to).await {
+            Err(_) => Outcome::Failed,
+            Ok(r) => {
+                let size = r.meta.size;
+                match r.bytes().await {
+                    Err(_) => Outcome::Failed,
+                    Ok(b) => {
+                        // a copy mints its own token: only size and bytes are compared
+                        let mut o = judge_bytes(ks, None, &b, None, rb);
+                        if o == Outcome::Original && size != ks.orig.len() as u64 {
+                            o = Outcome::Wrong(format!("copy reports size {size}"));
+                        }
+                        o
+                    }
+                }
+            }
+        },
+    };
+    p.push("copy_then_read", o);
+}
+
+fn full_hex(b: &[u8]) -> String {
+    b.iter().map(|x| format!("{x:02x}")).collect()
+}
+
+/// Replayable description of a tamper: the bytes installed and, for metadata, the untampered
+/// document and the CBOR diagnostic notation of both.
+fn describe_edits(s: &State, t: &Tamper) -> serde_json::Value {
+    let diag = |b: &[u8]| cbor2::from_slice::<Cbor>(b).map(|v| format!("{v}")).unwrap_or_else(|e| format!("undecodable: {e:?}"));
+    json!(t.edits.iter().map(|(path, e)| {
+        let original = s.keys.iter().find(|k| &k.meta_path == path).map(|k| k.meta_new.clone());
+        match e {
+            None => json!({"object": path, "deleted": true}),
+            Some(b) => json!({"object": path, "installed_hex": full_hex(b),
+                "installed_cbor": if path.starts_with("meta/") { Some(diag(b)) } else { None },
+                "untampered_hex": original.as_ref().map(|o| full_hex(o)),
+                "untampered_cbor": original.as_ref().map(|o| diag(o))}),
+        }
+    }).collect::<Vec<_>>())
+}
+
+struct StateCtx<'a> {
+    case: u64,
+    s: &'a State,
+    strict: bool,
+}
+
+/// Applies one tamper to a fork of the state and judges every read path.
+/// Returns false when a violation was recorded.
+async fn run_tamper(ctx: &StateCtx<'_>, t: &Tamper, idx: usize, warm: bool, st: &mut Stats) -> bool {
+    let s = ctx.s;
+    let fork = s.base.fork();
+    // a warm instance has read (and cached the metadata of) both keys before the tamper lands
+    let warm_store = if warm {
+        let st0 = build_store(Arc::new(fork.clone()), s.chunk, ctx.strict);
+        for ks in &s.keys {
+            if let Ok(r) = st0.get(&Path::from(ks.key.as_str())).await {
+                let _ = r.bytes().await;
+            }
+        }
+        Some(st0)
+    } else {
+        None
+    };
+    for (path, edit) in &t.edits {
+        let p = Path::from(path.as_str());
+        match edit {
+            Some(b) => {
+                fork.put(&p, PutPayload::from(b.clone())).await.expect("tamper put");
+            }
+            None => {
+                let _ = fork.delete(&p).await;
+            }
+        }
+    }
+    let store = match warm_store {
+        Some(w) => w,
+        None => build_store(Arc::new(fork), s.chunk, ctx.strict),
+    };
+    // what the documented rules say about an installed document without a seal
+    let mut expect = t.expect;
+    if let Some((k, view, two_site)) = t.downgrade {
+        expect[k] = match view {
+            Downgrade::No => expect[k],
+            Downgrade::KeepsV1 => Expect::MustReject,
+            Downgrade::LegacyLooking if ctx.strict => Expect::MustReject,
+            Downgrade::LegacyLooking if two_site => Expect::Undecidable,
+            Downgrade::LegacyLooking => expect[k],
+        };
+    }
+    if warm {
+        st.count(&format!("tamper_warm_instance:{}", t.class));
+        st.count("tamper_sites_warm_instance");
+    } else {
+        st.count(&format!("tamper:{}", t.class));
+        st.count("tamper_sites");
+    }
+    for e in expect {
+        match e {
+            Expect::MustReject => st.count("expectation:must_be_rejected(documented)"),
+            Expect::Rollback => st.count("expectation:rollback_not_decidable"),
+            Expect::Undecidable => st.count("expectation:compat_downgrade_window_not_decidable"),
+            Expect::Normal => {}
+        }
+    }
+    let mut probe = Probe { st, class: t.class, outcomes: vec![] };
+    let chunk = s.chunk as usize;
+    // rotate which key and which read path meets the cold cache first
+    let first = idx % 2;
+    let mut per_key: [Vec<(&'static str, Outcome)>; 2] = [vec![], vec![]];
+    for kk in 0..2 {
+        let k = (kk + first) % 2;
+        let before = probe.outcomes.len();
+        read_battery(&store, &s.keys[k], chunk, t.full[k], expect[k], idx / 2, &mut probe).await;
+        per_key[k] = probe.outcomes[before..].to_vec();
+    }
+    let before = probe.outcomes.len();
+    listing_outcomes(&store, &s.keys, expect, &mut probe).await;
+    for (name, o) in probe.outcomes[before..].to_vec() {
+        let k = if name.ends_with("#0") { 0 } else { 1 };
+        per_key[k].push((name, o));
+    }
+    for k in 0..2 {
+        let before = probe.outcomes.len();
+        copy_then_read(&store, &s.keys[k], k, expect[k] == Expect::Rollback, &mut probe).await;
+        per_key[k].extend(probe.outcomes[before..].to_vec());
+    }
+    let class = probe.class;
+    let st = probe.st;
+
+    let mut ok = true;
+    let mut all_original = true;
+    for k in 0..2 {
+        let ks = &s.keys[k];
+        for (path, o) in &per_key[k] {
+            let path_kind = path.split('#').next().unwrap_or(path);
+            match o {
+                Outcome::Failed => {
+                    all_original = false;
+                    st.count("read_failed");
+                    st.count(&format!("failed:{path_kind}"));
+                }
+                Outcome::Original => {
+                    st.count("read_returned_original");
+                    if expect[k] == Expect::MustReject {
+                        all_original = false;
+                        st.violation(
+                            format!("C09/documented/{class}/{path_kind}/accepted"),
+                            json!({"case": ctx.case, "tamper": t.what, "key": ks.key, "read_path": path, "edits": describe_edits(s, t),
+                                   "note": "the document must fail authentication on every read path (docs 2.7, 4.7; with_strict_metadata_auth docs); this read succeeded",
+                                   "chunk_size": s.chunk, "strict": ctx.strict, "size": ks.orig.len(), "written_by": format!("{:?}", ks.method)}),
+                        );
+                        ok = false;
+                    }
+                }
+                Outcome::Previous => {
+                    all_original = false;
+                    st.count("rollback_whole_key_previous_version_served");
+                }
+                Outcome::Wrong(_) if expect[k] == Expect::Undecidable => {
+                    all_original = false;
+                    st.count("compat_downgrade_window_forged_legacy_document_served");
+                }
+                Outcome::Wrong(w) => {
+                    all_original = false;
+                    st.violation(
+                        format!("C09/{class}/{path_kind}/wrong_result"),
+                        json!({"case": ctx.case, "tamper": t.what, "key": ks.key, "read_path": path, "got": w, "edits": describe_edits(s, t),
+                               "instance": if warm { "warm (both keys read before the tamper)" } else { "cold" },
+                               "chunk_size": s.chunk, "strict": ctx.strict, "size": ks.orig.len(),
+                               "written_by": format!("{:?}", ks.method)}),
+                    );
+                    ok = false;
+                }
+            }
+        }
+    }
+    if all_original {
+        st.count("neutral_tampers");
+        st.count(&format!("neutral:{class}"));
+    }
+    if class == "control_reencode_identity" && !all_original {
+        st.inconclusive("C09: a metadata document re-encoded by the harness without change is no longer readable: CBOR-level tampers are not meaningful");
+        ok = false;
+    }
+    ok
+}
+
+fn tamper_case(case: u64, rng: &mut Rng, st: &mut Stats, chunks: &[u64], deep: bool) -> bool {
+    let r = block_on(tamper_case_async(case, rng, st, chunks, deep));
+    flush_site_counts();
+    r
+}
+
+/// Returns true when every tamper site of the state was enumerated.
+async fn tamper_case_async(case: u64, rng: &mut Rng, st: &mut Stats, chunks: &[u64], deep: bool) -> bool {
+    // case -> (chunk size, size class of key 0, write method of key 0); key 1 takes the
+    // "opposite" size class and the next method, so every combination is fully tampered on both
+    let n_sizes = 6;
+    // largest states first (better load balance of the parallel section)
+    let ci = chunks.len() - 1 - ((case as usize) / (n_sizes * METHODS.len())) % chunks.len();
+    let si = n_sizes - 1 - (case as usize / METHODS.len()) % n_sizes;
+    let mi = case as usize % METHODS.len();
+    let c = chunks[ci % chunks.len()];
+    let sizes = sizes_for(c as usize);
+    let strict = (ci + si + mi) % 2 == 1;
+    let spy = SpyStore::new();
+    let store = build_store(Arc::new(spy.clone()), c, false);
+    let mut keys = vec![];
+    let mut plaintexts = vec![];
+    for k in 0..2usize {
+        let size = sizes[(si + 3 * k) % n_sizes];
+        let old_size = sizes[(si + 3 * k + 1 + rng.usize(5)) % n_sizes];
+        let method = METHODS[(mi + k) % METHODS.len()];
+        let new = plaintext(rng, size);
+        let old = plaintext(rng, old_size);
+        let key = if k == 0 { "k/a" } else { "k/b" };
+        match write_key(&store, &spy.inner, key, &old, &new, method, rng).await {
+            Ok(ks) => keys.push(ks),
+            Err(e) => {
+                st.inconclusive(format!("C09: building the object state failed: {e}"));
+                return false;
+            }
+        }
+        plaintexts.push(new);
+        plaintexts.push(old);
+        st.count(&format!("state_written_by:{method:?}"));
+        st.count(&format!("state_size_class:{}", ["0", "1", "c-1", "c", "c+1", "2c+3"][(si + 3 * k) % n_sizes]));
+    }
+    st.count(&format!("states_chunk_size:{c}"));
+    scan_for_plaintext(&spy, &plaintexts, st, &|| json!({"case": case, "workload": "tamper state construction", "chunk_size": c})).await;
+    let s = State { base: spy.inner.fork(), chunk: c, keys, deep };
+    let ctx = StateCtx { case, s: &s, strict };
+
+    // the untouched state must read back exactly (both modes), else nothing below means anything
+    for strict in [false, true] {
+        let store = build_store(Arc::new(s.base.fork()), c, strict);
+        let mut probe = Probe { st, class: "untouched", outcomes: vec![] };
+        for k in 0..2 {
+            read_battery(&store, &s.keys[k], c as usize, true, Expect::Normal, k, &mut probe).await;
+        }
+        listing_outcomes(&store, &s.keys, [Expect::Normal; 2], &mut probe).await;
+        for k in 0..2 {
+            copy_then_read(&store, &s.keys[k], k, false, &mut probe).await;
+        }
+        let bad: Vec<_> = probe.outcomes.iter().filter(|(_, o)| *o != Outcome::Original).cloned().collect();
+        if !bad.is_empty() {
+            st.violation(
+                "C09/untouched_state_not_readable",
+                json!({"case": case, "chunk_size": c, "strict": strict, "outcomes": format!("{bad:?}"),
+                       "sizes": s.keys.iter().map(|k| k.orig.len()).collect::<Vec<_>>(),
+                       "methods": s.keys.iter().map(|k| format!("{:?}", k.method)).collect::<Vec<_>>()}),
+            );
+            return false;
+        }
+    }
+
+    let mut tampers = vec![];
+    enumerate_tampers(&s, rng, &mut tampers);
+    let mut complete = true;
+    for (i, t) in tampers.iter().enumerate() {
+        if !run_tamper(&ctx, t, i, false, st).await {
+            complete = false;
+            break; // one report per state
+        }
+        // payload tampers also against a warm instance (cached metadata, stale-pointer retry)
+        if !t.edits.iter().any(|(p, _)| p.starts_with("meta/")) && !run_tamper(&ctx, t, i, true, st).await {
+            complete = false;
+            break;
+        }
+        // the downgrade-related classes are judged under both authentication modes
+        if t.class.starts_with("strip_") || t.class == "repoint_generation" {
+            let other = StateCtx { case, s: &s, strict: !strict };
+            if !run_tamper(&other, t, i + 1, false, st).await {
+                complete = false;
+                break;
+            }
+        }
+    }
+    st.add(if strict { "tampers_judged_strict_mode" } else { "tampers_judged_compat_mode" }, tampers.len() as u64);
+    st.max("max_tamper_sites_per_state", tampers.len() as u64);
+    st.distinct(vcore::fnv_str(&format!("{c}|{si}|{mi}")));
+    st.sample(|| {
+        json!({"monitor": "tamper_enumeration", "chunk_size": c, "strict": strict,
+               "keys": s.keys.iter().map(|k| format!("{} {}B via {:?} (previous version {}B), metadata {}B", k.key, k.orig.len(), k.method, k.old.len(), k.meta_new.len())).collect::<Vec<_>>(),
+               "tamper_sites": tampers.len()})
+    });
+    complete
+}
+
+// ---------------------------------------------------------------------------------------------
+// monitor 2: plaintext scan
+
+async fn scan_for_plaintext(spy: &SpyStore, plaintexts: &[Vec<u8>], st: &mut Stats, ctx: &dyn Fn() -> serde_json::Value) {
+    let mut windows: HashSet<[u8; 8]> = HashSet::new();
+    for p in plaintexts {
+        for w in p.windows(8) {
+            windows.insert(w.try_into().unwrap());
+        }
+    }
+    let sent: Vec<(String, Bytes)> = spy.log.lock().unwrap().payloads.clone();
+    let persisted = dump_store(spy.inner.as_ref()).await;
+    st.add("payloads_crossing_backend_boundary_scanned", sent.len() as u64);
+    st.add("persisted_objects_scanned", persisted.len() as u64);
+    st.add("plaintext_windows_in_dictionary", windows.len() as u64);
+    for (origin, (path, bytes)) in sent
+        .iter()
+        .map(|x| ("sent to backend", x))
+        .chain(persisted.iter().map(|x| ("persisted", x)))
+    {
+        st.count("oracle_plaintext_scan");
+        st.add("backend_windows_scanned", bytes.len().saturating_sub(7) as u64);
+        let kind = if path.starts_with("meta/") { "metadata" } else { "payload" };
+        if bytes.len() >= MARKER.len() && bytes.windows(MARKER.len()).any(|w| w == MARKER) {
+            st.violation(
+                format!("C09/plaintext/{kind}/marker_on_backend"),
+                json!({"origin": origin, "object": path, "context": ctx()}),
+            );
+            return;
+        }
+        if let Some(pos) = bytes.windows(8).position(|w| windows.contains(<&[u8; 8]>::try_from(w).unwrap())) {
+            st.violation(
+                format!("C09/plaintext/{kind}/plaintext_window_on_backend"),
+                json!({"origin": origin, "object": path, "offset": pos, "window": hex(&bytes[pos..pos + 8]), "context": ctx()}),
+            );
+            return;
+        }
+    }
+}
+
+fn leak_plaintext(rng: &mut Rng, c: usize) -> Vec<u8> {
+    match rng.below(10) {
+        // run of one byte value: a constant ciphertext run would show a keystream-less cipher
+        0 | 1 => vec![rng.below(256) as u8; 16 + rng.usize(3 * c.min(64) + 20)],
+        // marker inside random bytes
+        2..=5 => {
+            let n = rng.usize(2 * c.min(300) + 40);
+            let mut v = rng.bytes(n);
+            let at = rng.usize(v.len() + 1);
+            v.splice(at..at, MARKER.iter().copied());
+            v
+        }
+        _ => {
+            let n = match rng.below(6) {
+                0 => 8,
+                1 => c,
+                2 => c + 1,
+                3 => 2 * c.min(2000) + 3,
+                _ => 9 + rng.usize(400),
+            };
+            rng.bytes(n.max(8))
+        }
+    }
+}
+
+fn leak_case(case: u64, rng: &mut Rng, st: &mut Stats) {
+    block_on(leak_case_async(case, rng, st));
+    flush_site_counts();
+}
+
+async fn leak_case_async(case: u64, rng: &mut Rng, st: &mut Stats) {
+    let c = *rng.pick(&[1u64, 7, 16, 64, 4096]);
+    let spy = SpyStore::new();
+    let store = build_store(Arc::new(spy.clone()), c, rng.bool());
+    let keys = ["p/a", "p/b", "q", "p/a/n"];
+    let mut model: BTreeMap<&str, Vec<u8>> = BTreeMap::new();
+    let mut plaintexts: Vec<Vec<u8>> = vec![];
+    let mut history = vec![];
+    for _ in 0..(10 + rng.usize(12)) {
+        let key = *rng.pick(&keys);
+        let path = Path::from(key);
+        match rng.weighted(&[28, 14, 8, 8, 8, 10, 10, 8, 6]) {
+            0 => {
+                let v = leak_plaintext(rng, c as usize);
+                plaintexts.push(v.clone());
+                history.push(format!("put {key} {}B", v.len()));
+                if store.put(&path, PutPayload::from(v.clone())).await.is_ok() {
+                    model.insert(key, v);
+                }
+                st.count("leak_op:put");
+            }
+            1 => {
+                let v = leak_plaintext(rng, c as usize);
+                plaintexts.push(v.clone());
+                let parts = split_parts(rng, &v, 6);
+                history.push(format!("multipart {key} {:?}", parts.iter().map(|p| p.len()).collect::<Vec<_>>()));
+                if do_multipart(&store, &path, &parts).await.is_ok() {
+                    model.insert(key, v);
+                }
+                st.count("leak_op:multipart_complete");
+            }
+            2 => {
+                // aborted upload: the parts already reached the backend
+                let v = leak_plaintext(rng, c as usize);
+                plaintexts.push(v.clone());
+                history.push(format!("multipart {key} {}B aborted", v.len()));
+                if let Ok(mut up) = store.put_multipart(&path).await {
+                    for p in split_parts(rng, &v, 5) {
+                        let _ = up.put_part(PutPayload::from(p)).await;
+                    }
+                    let _ = up.abort().await;
+                }
+                st.count("leak_op:multipart_abort");
+            }
+            3 => {
+                // upload dropped without complete or abort
+                let v = leak_plaintext(rng, c as usize);
+                plaintexts.push(v.clone());
+                history.push(format!("multipart {key} {}B dropped", v.len()));
+                if let Ok(mut up) = store.put_multipart(&path).await {
+                    for p in split_parts(rng, &v, 5) {
+                        let _ = up.put_part(PutPayload::from(p)).await;
+                    }
+                }
+                st.count("leak_op:multipart_dropped");
+            }
+            4 => {
+                // put whose pointer switch fails: the generation stays behind
+                let v = leak_plaintext(rng, c as usize);
+                plaintexts.push(v.clone());
+                history.push(format!("put {key} {}B, commit fails", v.len()));
+                spy.log.lock().unwrap().fail_next_meta_put = true;
+                let r = store.put(&path, PutPayload::from(v.clone())).await;
+                spy.log.lock().unwrap().fail_next_meta_put = false;
+                if r.is_ok() {
+                    model.insert(key, v);
+                } else {
+                    st.count("leak_op:put_commit_failed");
+                }
+            }
+            5 => {
+                let to = *rng.pick(&keys);
+                history.push(format!("copy {key} -> {to}"));
+                if store.copy(&path, &Path::from(to)).await.is_ok() {
+                    if let Some(v) = model.get(key).cloned() {
+                        model.insert(to, v);
+                    }
+                }
+                st.count("leak_op:copy");
+            }
+            6 => {
+                let to = *rng.pick(&keys);
+                history.push(format!("rename {key} -> {to}"));
+                if store.rename(&path, &Path::from(to)).await.is_ok() && to != key {
+                    if let Some(v) = model.remove(key) {
+                        model.insert(to, v);
+                    }
+                }
+                st.count("leak_op:rename");
+            }
+            7 => {
+                history.push(format!("delete {key}"));
+                if store.delete(&path).await.is_ok() {
+                    model.remove(key);
+                }
+                st.count("leak_op:delete");
+            }
+            _ => {
+                history.push("collect_garbage".into());
+                let _ = store.collect_garbage().await;
+                st.count("leak_op:gc");
+            }
+        }
+    }
+    // the workload must have been a real one: everything reads back
+    for (k, v) in &model {
+        match store.get(&Path::from(*k)).await {
+            Ok(r) => match r.bytes().await {
+                Ok(b) if b.as_ref() == v.as_slice() => {}
+                other => {
+                    st.violation(
+                        "C09/plaintext_workload/read_back_differs",
+                        json!({"case": case, "key": k, "expected_len": v.len(), "got": format!("{:?}", other.map(|b| b.len())), "history": history}),
+                    );
+                    return;
+                }
+            },
+            Err(e) => {
+                st.violation(
+                    "C09/plaintext_workload/read_back_differs",
+                    json!({"case": case, "key": k, "error": format!("{e}"), "history": history}),
+                );
+                return;
+            }
+        }
+    }
+    st.eval();
+    scan_for_plaintext(&spy, &plaintexts, st, &|| json!({"case": case, "workload": history, "chunk_size": c})).await;
+    st.sample(|| json!({"monitor": "plaintext_scan", "chunk_size": c, "operations": history.iter().take(10).collect::<Vec<_>>()}));
+}
+
+// ---------------------------------------------------------------------------------------------
+// monitor 3 workload: many encryptions, long chunk-index runs
+
+fn nonce_case(case: u64, rng: &mut Rng, st: &mut Stats, volume: usize) {
+    block_on(nonce_case_async(case, rng, st, volume));
+    flush_site_counts();
+}
+
+async fn nonce_case_async(case: u64, rng: &mut Rng, st: &mut Stats, volume: usize) {
+    let c = *rng.pick(&[1u64, 1, 2, 3, 16]);
+    let mem = Arc::new(InMemory::new());
+    let store = build_store(mem.clone(), c, false);
+    let mut done = 0usize;
+    let mut i = 0;
+    while done < volume {
+        i += 1;
+        let key = Path::from(format!("n/{}", rng.below(6)));
+        let n = 200 + rng.usize(volume / 3 + 1);
+        let v = rng.bytes(n);
+        let via_multipart = rng.bool();
+        let r = if via_multipart {
+            // many parts, smaller and larger than the chunk size, so that the uploader's
+            // chunk-index counter runs across part boundaries
+            let mut parts = vec![];
+            let mut rest = &v[..];
+            while !rest.is_empty() {
+                let m = (1 + rng.usize(40)).min(rest.len());
+                parts.push(rest[..m].to_vec());
+                rest = &rest[m..];
+            }
+            st.add("nonce_workload_multipart_parts", parts.len() as u64);
+            do_multipart(&store, &key, &parts).await
+        } else {
+            store.put(&key, PutPayload::from(v.clone())).await.map(|_| ())
+        };
+        st.count(if via_multipart { "nonce_workload_multipart" } else { "nonce_workload_put" });
+        st.max("max_chunks_per_object", n.div_ceil(c as usize) as u64);
+        done += n.div_ceil(c as usize);
+        // read-back: a chunk counter that drifted between writer and reader would fail here
+        let got = match &r {
+            Ok(()) => match store.get(&key).await {
+                Ok(g) => g.bytes().await.ok(),
+                Err(_) => None,
+            },
+            Err(_) => None,
+        };
+        st.eval();
+        if got.as_deref() != Some(&v[..]) {
+            st.violation(
+                "C09/nonce_workload/read_back_differs",
+                json!({"case": case, "object": i, "chunk_size": c, "size": n, "multipart": via_multipart,
+                       "write": format!("{:?}", r.as_ref().map_err(|e| e.to_string())), "read_len": got.map(|g| g.len())}),
+            );
+            return;
+        }
+        // consistency of the two views: the nonces the documented derivation yields for the
+        // committed document (base nonce + chunk index) are nonces the hook saw
+        if let Some(doc) = raw(&mem, &format!("meta/{key}")).await {
+            let m = cbor_decode(&doc).unwrap_or_default();
+            if let (Some(Cbor::Bytes(base)), Some(Cbor::Array(tags))) = (field(&m, "n"), field(&m, "t")) {
+                if base.len() == 12 && !tags.is_empty() && !nonce_mon().saturated.load(Ordering::Relaxed) {
+                    let mut b = [0u8; 12];
+                    b.copy_from_slice(base);
+                    let mut idxs = vec![0u64, tags.len() as u64 - 1];
+                    for _ in 0..6 {
+                        idxs.push(rng.below(tags.len() as u64));
+                    }
+                    for i in idxs {
+                        let mut nonce = b;
+                        let ctr = u64::from_le_bytes(nonce[4..12].try_into().unwrap()).wrapping_add(i);
+                        nonce[4..12].copy_from_slice(&ctr.to_le_bytes());
+                        st.count("nonce_hook_consistency_checks");
+                        let shard = &nonce_mon().shards[(nonce[0] as usize ^ nonce[5] as usize) % SHARDS];
+                        if !shard.lock().unwrap_or_else(|e| e.into_inner()).contains_key(&nonce) {
+                            st.inconclusive("nonce hook drift: a nonce derived from a committed document (base nonce + chunk index) was never reported by the hook");
+                        }
+                    }
+                }
+            }
+        }
+        if rng.chance(1, 3) {
+            let to = Path::from(format!("n/copy{}", rng.below(3)));
+            let _ = store.copy(&key, &to).await;
+            st.count("nonce_workload_copy");
+        }
+    }
+}
+
+// ---------------------------------------------------------------------------------------------
+
 fn main() {
-    println!("INCONCLUSIVE property=C09 monitor not built yet");
-    std::process::exit(2);
+    let mut run = Run::from_args(
+        "C09",
+        "exploration",
+        "object states = (chunk size, size class of key 0, write method of key 0) with key 1 on the \
+         opposite size class / next method; every state is distinct and non-trivial (two keys, two \
+         generations each); all single-site tampers of every state are enumerated",
+    );
+    anda_object_store::verif::set_nonce_hook(Some(nonce_hook));
+    run.assume("one AES-256-GCM key for the whole run (the nonce monitor keeps one table over all sections)");
+    run.assume("object keys/paths are stored in clear by design (docs 2): only object content counts as plaintext");
+    run.assume("whole-key rollback (previous metadata document over a still existing previous payload) is not decidable by the store: counted, not asserted");
+    run.assume("full auth downgrade (an, at, av, g all stripped) is accepted as legacy metadata in compatibility mode by documented design; it is judged by the byte oracle only");
+    let t = run.tier;
+    let chunks: Vec<u64> = t.pick(vec![1, 7], vec![1, 7, 16]);
+    let n_states = (chunks.len() * 6 * METHODS.len()) as u64;
+    let mut exhaustive = true;
+    if run.wants("tamper") {
+        let complete = AtomicU64::new(0);
+        let ran = run.parallel("tamper", n_states, 0.75, |c, rng, st| {
+            if tamper_case(c, rng, st, &chunks, t.pick(false, true)) {
+                complete.fetch_add(1, Ordering::Relaxed);
+            }
+        });
+        exhaustive &= ran == n_states && complete.load(Ordering::Relaxed) == n_states;
+        run.stats.add("object_states_fully_enumerated", complete.load(Ordering::Relaxed));
+    }
+    if run.wants("leak") {
+        run.parallel("leak", t.pick(1500, 60_000), 0.5, leak_case);
+    }
+    if run.wants("nonce") {
+        run.parallel("nonce", t.pick(48, 1200), 0.9, |c, rng, st| nonce_case(c, rng, st, t.pick(6000, 20_000)));
+    }
+    // nonce monitor verdict
+    let m = nonce_mon();
+    run.stats.add("nonce_events_observed", m.events.load(Ordering::Relaxed));
+    run.stats.add("nonce_distinct_nonces", m.distinct.load(Ordering::Relaxed));
+    run.stats.add("nonce_identical_triples_repeated", m.identical_repeats.load(Ordering::Relaxed));
+    for (site, n) in m.sites.lock().unwrap().iter() {
+        run.stats.add(&format!("nonce_site:{site}"), *n);
+    }
+    if m.saturated.load(Ordering::Relaxed) {
+        run.stats.add("nonce_table_saturated", 1);
+    }
+    let collisions = m.collisions.lock().unwrap().clone();
+    if !collisions.is_empty() {
+        run.stats.violation(
+            "C09/nonce/reused_for_different_input",
+            json!({"collisions": collisions, "note": "the same 96-bit nonce was handed to the cipher with a different (aad, plaintext) under one key"}),
+        );
+    }
+    if run.only.is_none() && run.replay.is_none() {
+        run.exhaustive = Some(exhaustive);
+    }
+    run.floor("tamper_sites", 50_000);
+    for class in [
+        "bitflip_payload", "bitflip_metadata", "truncate_payload", "truncate_metadata", "extend_payload",
+        "extend_metadata", "swap_chunks", "swap_payloads_between_keys", "swap_metadata_between_keys",
+        "payload_from_other_generation", "metadata_from_other_key", "repoint_generation",
+        "replay_old_metadata_with_old_payload", "strip_field", "strip_auth_keeping_v1_fields",
+        "strip_auth_full_downgrade", "strip_seal_then_bitflip", "transplant_field", "control_reencode_identity",
+    ] {
+        run.floor(&format!("tamper:{class}"), 10);
+    }
+    for path in [
+        "get", "head", "get_range_bounded", "get_range_offset", "get_range_suffix", "get_ranges", "list",
+        "list_with_offset", "list_with_delimiter", "copy_then_read",
+    ] {
+        run.floor(&format!("reads:{path}"), 1000);
+    }
+    for m in ["Put", "Multipart", "Copy", "Rename"] {
+        run.floor(&format!("state_written_by:{m}"), 4);
+    }
+    run.floor("read_failed", 10_000);
+    run.floor("read_returned_original", 10_000);
+    run.floor("rollback_whole_key_previous_version_served", 10);
+    run.floor("oracle_plaintext_scan", 5_000);
+    run.floor("backend_windows_scanned", 100_000);
+    run.floor("leak_op:multipart_abort", 20);
+    run.floor("leak_op:put_commit_failed", 20);
+    run.floor("nonce_events_observed", 100_000);
+    run.floor("nonce_site:put_chunk", 10_000);
+    run.floor("nonce_site:multipart_chunk", 10_000);
+    run.floor("nonce_site:multipart_tail_chunk", 5);
+    run.floor("nonce_site:metadata_seal", 1_000);
+    run.floor("max_chunks_per_object", 1000);
+    run.finish();
 }
